@@ -453,3 +453,68 @@ func c01Composites(c *vrep.Ctx) {
 		}
 	})
 }
+
+// c01Lengths: a user document of EVERY length from q to 200 words (distinct words, and a period-3
+// pattern), planted in context at every threshold of the menu: counts and ratios of counts
+// (threshold x length, error margins, window sizes) go through integer and floating-point
+// arithmetic that small documents never exercise.
+func init() { vRegister("c01_lengths", c01Lengths) }
+
+func c01Lengths(c *vrep.Ctx) {
+	ts := []float64{0.7, 0.75, 0.8, 0.85, 0.9, 0.95, 0.99, 1}
+	maxN := c.Pick(140, 300)
+	c.R.Rule = fmt.Sprintf("user document of EVERY length q..%d words x {all words distinct, period-3 pattern} x thresholds %v x 3 contexts (own lines; after 2 OOV words on the same line; at the very start and end of the input); the copy must be reported with Confidence 1.0 and its exact span and lines; non-trivial = cases", maxN, ts)
+	c.Bound("max_words", maxN)
+	body := func(r *vx.Run) {
+		ti := r.Choose(len(ts), "threshold")
+		n := 1 + r.Choose(maxN, "length")
+		if r.Scout() {
+			return
+		}
+		kind := r.Choose(2, "distinct / periodic")
+		ctx := r.Choose(3, "context")
+		t := ts[ti]
+		if n < computeQ(t) {
+			r.Note = map[string]interface{}{"skip": true}
+			return
+		}
+		var w []string
+		for i := 0; i < n; i++ {
+			if kind == 0 {
+				w = append(w, vFillerWord(i))
+			} else {
+				w = append(w, vFillerWord(i%3))
+			}
+		}
+		cl := NewClassifier(t)
+		cl.AddContent("License", "Doc", "license.txt", []byte(strings.Join(w, " ")))
+		var in string
+		start := 0
+		switch ctx {
+		case 0:
+			in = vOOV(1) + " " + vOOV(2) + "\n" + strings.Join(w, " ") + "\n" + vOOV(3) + "\n"
+			start = 2
+		case 1:
+			in = vOOV(1) + " " + vOOV(2) + " " + strings.Join(w, " ") + " " + vOOV(3)
+			start = 2
+		default:
+			in = strings.Join(w, " ")
+		}
+		toks := vTokenize([]byte(in))
+		msg := c01Expect(cl.Match([]byte(in)), toks, "Doc", "License", start, n)
+		r.Note = map[string]interface{}{"id": fmt.Sprintf("T=%v %d words kind=%d context=%d", t, n, kind, ctx), "msg": msg}
+	}
+	c.Run(vSplitExplorer(c, 0, 2), body, func(r *vx.Run) {
+		if r.Note["skip"] != nil {
+			c.R.Evaluations--
+			return
+		}
+		id := r.Note["id"].(string)
+		c.Nontrivial(id)
+		if m := r.Note["msg"].(string); m != "" {
+			c.Violate("c01_lengths:"+strings.ReplaceAll(id, " ", "_"), id+": "+m, r, m)
+		} else {
+			c.Outcome("found")
+		}
+	})
+}
